@@ -12,8 +12,9 @@ def effective_types(opts):
     for s, key in enumerate(("in", "out", "err")):
         ty = opts.get(key, R_DEFAULT)
         if ty == R_DEFAULT:
-            if opts.get("rparent"):
-                ty = R_PARENT
+            if opts.get("rparent") or (opts.get("runex") == "plain" and not (
+                    opts.get("rdiscard") or opts.get("rfile") or opts.get("rpath"))):
+                ty = R_PARENT   # reproc_run's own default
             elif opts.get("rdiscard"):
                 ty = R_DISCARD
             else:
